@@ -232,6 +232,10 @@ class BuiltinMixin:
     h = getattr(self, f'lib_{base}_{name}', None)
     if h is not None:
       return VFn(full, impl=h)
+    if base == 'itertools' and name == 'chain':
+      return VModule('itertools.chain')
+    if dotted == 'itertools.chain' and name == 'from_iterable':
+      return VFn('itertools.chain.from_iterable', impl=self.lib_itertools_chain_from_iterable)
     if base in ('logging',):
       return VFn(full, impl=lambda it, a, k: NONE)
     if base == 'np' or dotted == 'numpy':
@@ -349,6 +353,24 @@ class BuiltinMixin:
     tol = z3.If(rel * mx >= ab, rel * mx, ab)
     return VBool(z3.And(z3.Not(x.nan), z3.Not(y.nan), absf(x.t - y.t) <= tol))
 
+  def lib_itertools_chain_from_iterable(self, it, a, k):
+    """chain.from_iterable(parts): an opaque iterator that delivers its parts one after the other; the ghost
+    functions nparts / part_of record them (A2)."""
+    parts = a[0]
+    r = z3.Const(self.path.fresh_name('chain'), Obj)
+    if isinstance(parts, (VList, VTuple)):
+      self.assume(nparts_fn(r) == len(parts.items))
+      for j, x in enumerate(parts.items):
+        self.assume(part_fn(r, j) == self.to_obj(x))
+    elif isinstance(parts, (VMList, VSeq)):
+      sq = parts.seq if isinstance(parts, VMList) else parts
+      self.assume(nparts_fn(r) == sq.n)
+      j = z3.Int(self.path.fresh_name('j'))
+      self.assume(z3.ForAll([j], z3.Implies(z3.And(0 <= j, j < sq.n), part_fn(r, j) == z3.Select(sq.arr, j))))
+    else:
+      raise Unsupported(f'chain.from_iterable({type(parts).__name__})')
+    return VOpaque(r)
+
   def lib_time_time(self, it, a, k):
     """Wall clock: a non-decreasing ghost (A5)."""
     prev = self.ghost.get('__clock__')
@@ -389,6 +411,8 @@ class BuiltinMixin:
 
 
 _SLICE_OF = z3.Function('slice_of', Obj, z3.IntSort(), z3.IntSort(), Obj)
+nparts_fn = z3.Function('nparts', Obj, z3.IntSort())            # ghost: number of iterators chained into an opaque iterator
+part_fn = z3.Function('part_of', Obj, z3.IntSort(), Obj)        # ghost: its j-th part
 
 
 def _default(kind):
